@@ -187,6 +187,8 @@ def build(flags: dict, ir_version=10, opset=18) -> onnx.ModelProto:
         g.value_info.append(H.make_tensor_value_info("w_rankless", TP.FLOAT, None))
         g.initializer.append(H.make_tensor("w_symdim", TP.FLOAT, [2], vals=[0.5, 1.5]))
         g.value_info.append(H.make_tensor_value_info("w_symdim", TP.FLOAT, ["K"]))
+        g.node.append(H.make_node("Identity", ["w_rankless"], ["wr_used"], name="n_use_rankless"))      # referenced, so the entries are not 'unreferenced'
+        g.node.append(H.make_node("Identity", ["w_symdim"], ["ws_used"], name="n_use_symdim"))
     if f("quantization"):
         qa = g.quantization_annotation.add()
         qa.tensor_name = "a"
